@@ -133,13 +133,14 @@ func installCallback() {
 // ---- replica
 
 type replica struct {
-	name string
-	path string              // "evm" | "app"
-	cur  *types.ValidatorSet // State.Validators: the plugin holds a pointer to this field
-	last *types.ValidatorSet
-	plug *plugin.AdminOp
-	sw   *p2p.Switch
-	rl   *refuse_list.RefuseList
+	nodeKey crypto.PrivKey // this replica's own validator key: the outcome of a request must not depend on it
+	name    string
+	path    string              // "evm" | "app"
+	cur     *types.ValidatorSet // State.Validators: the plugin holds a pointer to this field
+	last    *types.ValidatorSet
+	plug    *plugin.AdminOp
+	sw      *p2p.Switch
+	rl      *refuse_list.RefuseList
 
 	// evm path
 	db   ethdb.Database
@@ -147,6 +148,20 @@ type replica struct {
 	// app path
 	app *evmdrive.App
 	dir string
+}
+
+// nodeKeyOf returns the private key (engine type) of the generated validator with this public key.
+func nodeKeyOf(pubHex string) crypto.PrivKey {
+	for _, k := range edCache {
+		if hex.EncodeToString(k.Pub) == pubHex {
+			var out crypto.PrivKeyEd25519
+			copy(out[:], k.Priv)
+			return out
+		}
+	}
+	var out crypto.PrivKeyEd25519
+	copy(out[:], edKeyOf("stranger-node").Priv)
+	return out
 }
 
 func genesisSet(vals []memberView) *types.ValidatorSet {
@@ -165,11 +180,28 @@ func (r *replica) initPlugin() {
 		Switch:     r.sw,
 		RefuseList: r.rl,
 		Validators: &r.cur,
+		PrivKey:    r.nodeKey, // the engine passes the node's validator key (Angine.InitPlugins)
 	})
 }
 
 func newReplica(name, path string, vals []memberView, scratch string) (*replica, error) {
 	r := &replica{name: name, path: path}
+	// every replica is somebody: the continuous one the first genesis validator, the restarted one
+	// the last, the late one an outsider
+	who := "stranger-node"
+	switch {
+	case name == "continuous" && len(vals) > 0:
+		who = ""
+		r.nodeKey = nodeKeyOf(vals[0].Pub)
+	case name == "restarted" && len(vals) > 0:
+		who = ""
+		r.nodeKey = nodeKeyOf(vals[len(vals)-1].Pub)
+	}
+	if who != "" {
+		var k crypto.PrivKeyEd25519
+		copy(k[:], edKeyOf(who).Priv)
+		r.nodeKey = k
+	}
 	r.cur = genesisSet(vals)
 	r.last = types.NewValidatorSet(nil)
 	r.sw = p2p.NewSwitch(viper.New())
